@@ -705,8 +705,9 @@ class NDNApp:
         name = enc.Name.normalize(name)
 
         def decorator(func: IntHandler):
-            self._autoreg_routes.append(name)
+            # (attach first: a declaration refused because the prefix is occupied must not leave a registration behind)
             self.attach_handler(name, func, validator)
+            self._autoreg_routes.append(name)
             if self.face.running:
                 aio.create_task(self.register(name))
             return func
